@@ -38,6 +38,8 @@ type c13Scenario struct {
 	// LateTracking: the client connects with state tracking off, sees its nick changed by the server,
 	// and only then enables tracking (allowed "while the client is not joined to any channels")
 	LateTracking bool `json:"late_tracking"`
+	// OldTimes: every line carries a server-time tag from years ago
+	OldTimes bool `json:"old_times"`
 }
 
 var c13Chans = []string{"#a", "#b", "&c", "#D"}
@@ -296,7 +298,7 @@ func genNetEvent(t *rapid.T, n *model.Net) (netEvent, bool) {
 }
 
 func genC13(t *rapid.T) *c13Scenario {
-	sc := &c13Scenario{LateTracking: rapid.IntRange(0, 3).Draw(t, "late_tracking") == 0}
+	sc := &c13Scenario{LateTracking: rapid.IntRange(0, 3).Draw(t, "late_tracking") == 0, OldTimes: rapid.IntRange(0, 3).Draw(t, "old_times") == 0}
 	n := model.NewNet("me")
 	add := func(e netEvent) {
 		sc.Events = append(sc.Events, e)
@@ -445,6 +447,10 @@ func runC13(sc *c13Scenario) *Violation {
 		universe[nk] = true
 	}
 	st := tc.C.StateTracker()
+	timeTag := ""
+	if sc.OldTimes {
+		timeTag = "@time=2011-10-19T16:40:51.620Z "
+	}
 	var history []string
 	for ei, e := range sc.Events {
 		if sc.LateTracking && ei == 1 {
@@ -455,7 +461,7 @@ func runC13(sc *c13Scenario) *Violation {
 		if e.Kind == "toggle" && st != nil {
 			tc.C.DisableStateTracking()
 			for _, l := range lines {
-				conn.SendLine(l)
+				conn.SendLine(timeTag + l)
 				history = append(history, "<tracking off> "+l)
 			}
 			if !tc.syncOut(stallTimeout()) {
@@ -489,7 +495,7 @@ func runC13(sc *c13Scenario) *Violation {
 			history = append(history, "<client reconnects>")
 		}
 		for _, l := range lines {
-			conn.SendLine(l)
+			conn.SendLine(timeTag + l)
 			history = append(history, l)
 		}
 		if len(lines) == 0 {
@@ -514,7 +520,7 @@ func runC13(sc *c13Scenario) *Violation {
 		}
 		if len(replies) > 0 {
 			for _, l := range replies {
-				conn.SendLine(l)
+				conn.SendLine(timeTag + l)
 				history = append(history, l)
 			}
 			if !tc.syncOut(stallTimeout()) {
